@@ -34,6 +34,7 @@ PROPS["C05"] = dict(units=["ark_ops"], assumptions=[A_ARK2, M_GROUP, A_WF, A_STD
 
 PROPS["C04"]["units"] = ["ark_ops", "ark_encoding", "ark_element"]
 PROPS["C05"]["units"] = ["ark_ops", "ark_element"]
+PROPS["C05"]["not_decided"] = list(PROPS["C05"].get("not_decided", [])) + ["VariableBaseMSM::msm / msm_bigint on Element (arkworks' generic Pippenger code, which reaches the crate through the operator impls proved under C04 -- e.g. `bucket -= &base` -- and ScalarMul::batch_convert_to_mul_base, proved under C06): bounded probe curve.mul"]
 PROPS["C06"] = dict(units=["ark_element", "ark_encoding", "ark_ops"], assumptions=[A_ARK2, M_GROUP, M_DECAF, A_WF, A_STD],
     explanation="each public constructor ensures valid(repr) (on the curve and in 2E) or equality with a value proved valid; from_random_bytes doubles the sampled curve point; normalize_batch / batch_convert_to_mul_base return, element by element, the affine form of their inputs (loop invariants after R28)",
     not_decided=["termination of the rejection samplers of rand.rs (probabilistic; partial correctness is proved: whatever the RNG stream, the value handed out is a successful decoding)",
@@ -59,8 +60,8 @@ for _p in ("C01", "C02"):
     PROPS[_p]["assumptions"] = list(PROPS[_p]["assumptions"]) + [A_ARK3]
 PROPS["C11"] = dict(units=["fieldx_fq", "fieldx_fr", "fieldx_fp", "wrap64_fq", "wrap64_fr", "wrap64_fp", "ops_fq", "ops_fr", "ops_fp"],
     assumptions=[A_ARK1, A_ARK3, A_STD, A_WF],
-    explanation="byte/limb/bigint conversions refine the integer value: to_bytes(_le) is the little-endian form of val, from_bytes_checked accepts exactly the integers below p, from_bigint is Some iff below p, from_le_limbs/from_raw_bytes reduce mod p, From<u8..u128,bool>; from_le_bytes_mod_order / from_be_bytes_mod_order reduce byte strings of ANY length (Horner loop invariant over N_8-byte chunks); Ord::cmp / PartialOrd::partial_cmp are integer comparison of the values (lexicographic comparison of the reversed limb arrays, lemma_lex_is_int proved); Hash writes exactly the canonical little-endian bytes, a function of the value; the flag-carrying stream format: serialize_with_flags writes ser_bytes(value, flags) (canonical bytes with the mask OR-ed into the top byte, or one extra byte when the flags do not fit), deserialize_with_flags returns deser_spec of the bytes it reads (NotEnoughSpace for flags wider than 8 bits, IoError on a short stream, UnexpectedFlags, InvalidData for non-canonical values, else value and flags) and consumes exactly serialized_size_with_flags bytes, serialize_with_mode / deserialize_with_mode / serialized_size / Valid::check are the EmptyFlags instances; lemma_flags_roundtrip: for every flag type obeying the flag law, deserialising what was serialised (followed by anything) returns the same value and flags",
-    not_decided=["FromStr / Display (char iteration, BigInt::to_string): bounded probe field.* (decimal round trip)",
+    explanation="byte/limb/bigint conversions refine the integer value: to_bytes(_le) is the little-endian form of val, from_bytes_checked accepts exactly the integers below p, from_bigint is Some iff below p, from_le_limbs/from_raw_bytes reduce mod p, From<u8..u128,bool>; from_le_bytes_mod_order / from_be_bytes_mod_order reduce byte strings of ANY length (Horner loop invariant over N_8-byte chunks); Ord::cmp / PartialOrd::partial_cmp are integer comparison of the values (lexicographic comparison of the reversed limb arrays, lemma_lex_is_int proved); Hash writes exactly the canonical little-endian bytes, a function of the value; the flag-carrying stream format: serialize_with_flags writes ser_bytes(value, flags) (canonical bytes with the mask OR-ed into the top byte, or one extra byte when the flags do not fit), deserialize_with_flags returns deser_spec of the bytes it reads (NotEnoughSpace for flags wider than 8 bits, IoError on a short stream, UnexpectedFlags, InvalidData for non-canonical values, else value and flags) and consumes exactly serialized_size_with_flags bytes, serialize_with_mode / deserialize_with_mode / serialized_size / Valid::check are the EmptyFlags instances; lemma_flags_roundtrip: for every flag type obeying the flag law, deserialising what was serialised (followed by anything) returns the same value and flags; FromStr accepts exactly the strings of decimal digits (the empty one included) and returns their decimal value modulo p (Horner loop invariant after R33)",
+    not_decided=["Display (BigInt::to_string through num-bigint, Formatter): bounded probe field.* (decimal round trip; zero prints as the empty string, as in arkworks)",
                  "Field::sqrt / legendre (arkworks generic routines, A-ARK-1): bounded"])
 
 PROPS["C17"] = dict(units=["consts"], assumptions=[M_PRIME + " (the certified factors of p-1 are prime)", "the reference moduli are read from the cargo registry source of ark-bls12-377 / ark-ed-on-bls12-377 0.4.0"],
@@ -71,13 +72,13 @@ for _p in ("C04", "C05", "C06", "C07", "C12"):
 
 A_ARK4 = "A-ARK-4: each ark_r1cs_std primitive used (FpVar new_witness/new_constant/square/inverse/negate/is_eq/conditionally_select/conditional_enforce_equal/to_bits_le/+,-,*; Boolean new_witness/and/or/not/is_eq/enforce_equal/select; AffineVar::new; AffineVar add / sub / double_in_place / negate / zero / constant / new_variable_omit_prime_order_check as gadgets for the twisted Edwards group law on curve points, preludes/r1cs_group.rs) is a sound and complete gadget for the operation it names (preludes/r1cs.rs); a variable allocated in Constant mode has no constraint system and witnessing into it fails; EqGadget::enforce_equal and AllocVar::new_input are the arkworks default methods over the functions proved here; in the completeness reading AffineVar::new_variable_omit_prime_order_check succeeds on an on-curve point and holds its affine coordinates, FpVar::new_variable holds the hint's value, allocation outside Constant mode needs a constraint system, the native encoder meets its C03 contract and the coordinates of a native point are field elements; in the soundness reading a panic (expect) during synthesis leaves no circuit to reason about"
 PROPS["C14"] = dict(units=["r1cs_sound", "r1cs_fwd_sound", "r1cs_outer_sound"], assumptions=[A_ARK4, M_PRIME + " (no zero divisors; a non-zero square has exactly two roots; zeta is a non-square)", M_DECAF, A_WF],
-    explanation="the verbatim gadget code is verified with every witness value left arbitrary and every enforced constraint taken as a fact: any satisfying assignment makes isqrt / sign / abs / encode / decode / Elligator / equality / select outputs satisfy the specification's relations; the four AllocVar::new_variable functions (inner AllocVar<Element>; outer AllocVar<Element>, AllocVar<AffinePoint>, AllocVar<Fq>) are verified with the offered point, the offered encoding and both isqrt hints arbitrary: a Witness-mode variable is always the in-circuit decoding of some field element or an on-curve point the equality gadget identifies with it; CurveVar::new_variable_omit_prime_order_check of both layers (by its name no group check) still yields an on-curve point outside Constant mode; known finding D6 is the region den = 0 of isqrt (decode of s = q-1)",
-    not_decided=["to_bits_le / to_bytes / value / cs of both ElementVar layers", "lazy.rs itself is C13 (Kani)"])
+    explanation="the verbatim gadget code is verified with every witness value left arbitrary and every enforced constraint taken as a fact: any satisfying assignment makes isqrt / sign / abs / encode / decode / Elligator / equality / select outputs satisfy the specification's relations; the four AllocVar::new_variable functions (inner AllocVar<Element>; outer AllocVar<Element>, AllocVar<AffinePoint>, AllocVar<Fq>) are verified with the offered point, the offered encoding and both isqrt hints arbitrary: a Witness-mode variable is always the in-circuit decoding of some field element or an on-curve point the equality gadget identifies with it; CurveVar::new_variable_omit_prime_order_check of both layers (by its name no group check) still yields an on-curve point outside Constant mode; R1CSVar::value of both layers returns the native point with exactly the variable's coordinates; known finding D6 is the region den = 0 of isqrt (decode of s = q-1)",
+    not_decided=["to_bits_le / to_bytes of both ElementVar layers (bit / byte decompositions of the affine coordinates by arkworks gadgets)", "lazy.rs itself is C13 (Kani)"])
 
 PROPS["C13"] = dict(units=["r1cs_compl", "r1cs_fwd_compl", "r1cs_outer_compl"], assumptions=[A_ARK4, M_PRIME, M_ELL, M_DECAF, C09_CONTRACT, A_WF],
-    explanation="the verbatim gadget code is verified with honest hints (witness = value of the hint closure) and every enforced constraint / inverse / new_witness / expect as a proof obligation: synthesis returns Ok, all constraints hold, and outputs equal the native specification values (isqrt flag and root, sign, abs, encode, decode when native decoding succeeds, Elligator coordinates, equality, select); the 17 operator / CurveVar forwarding impls of inner.rs and the 27 functions of the lazily evaluated outer ElementVar (element.rs, ops.rs) are verified against the group law te_add / te_neg with LazyElementVar abstract; the allocation functions (inner AllocVar<Element>::new_variable; outer AllocVar<Element> / AllocVar<AffinePoint> / AllocVar<Fq>::new_variable; CurveVar::new_variable_omit_prime_order_check of both layers) are verified for the honest prover in every mode they support: the hint closure returns an element on the curve whose encoding decodes to an element equal to it (what C06 establishes), synthesis then succeeds -- the in-circuit decoding of the witnessed encoding exists and the equality constraint with the witnessed coordinates holds -- and the variable denotes the native element (Witness: its canonical representative; Constant: its affine form; Input: its encoding, which decodes); lazy.rs itself (forcing order, repetition, emission counts, RefCell discipline) is proved by Kani on the verbatim file",
+    explanation="the verbatim gadget code is verified with honest hints (witness = value of the hint closure) and every enforced constraint / inverse / new_witness / expect as a proof obligation: synthesis returns Ok, all constraints hold, and outputs equal the native specification values (isqrt flag and root, sign, abs, encode, decode when native decoding succeeds, Elligator coordinates, equality, select); the 17 operator / CurveVar forwarding impls of inner.rs and the 27 functions of the lazily evaluated outer ElementVar (element.rs, ops.rs) are verified against the group law te_add / te_neg with LazyElementVar abstract; the allocation functions (inner AllocVar<Element>::new_variable; outer AllocVar<Element> / AllocVar<AffinePoint> / AllocVar<Fq>::new_variable; CurveVar::new_variable_omit_prime_order_check of both layers) are verified for the honest prover in every mode they support: the hint closure returns an element on the curve whose encoding decodes to an element equal to it (what C06 establishes), synthesis then succeeds -- the in-circuit decoding of the witnessed encoding exists and the equality constraint with the witnessed coordinates holds -- and the variable denotes the native element (Witness: its canonical representative; Constant: its affine form; Input: its encoding, which decodes); R1CSVar::value of both layers returns the native point with exactly the variable's coordinates (Affine::new's on-curve assertion is an obligation) and never fails for the honest prover; lazy.rs itself (forcing order, repetition, emission counts, RefCell discipline) is proved by Kani on the verbatim file",
     not_decided=["scalar multiplication gadget scalar_mul_le (arkworks default method over double_in_place / conditionally_select / add, all three under contract)",
-                 "to_bits_le / to_bytes / value / cs", "histories of forcing operations longer than 4 on one lazy variable (absorbing-state argument, see DESIGN 2.6)"])
+                 "to_bits_le / to_bytes (bit / byte decompositions of the affine coordinates by arkworks gadgets)", "histories of forcing operations longer than 4 on one lazy variable (absorbing-state argument, see DESIGN 2.6)"])
 
 M_SQRT = "M-SQRT (retired): both square-root routines are proved -- the Sarkar table routine of the default build in unit ark_invsqrt, the constant-time Tonelli-Shanks `our_sqrt` of the minimal build in unit min_invsqrt (loop invariant z^2 = t x, t^(2^(i-1)) = 1, c^(2^(i-1)) = -1)"
 M_ROOTS8 = "M-ROOTS8: h = g^(2^39) is a primitive 256th root of unity in the cyclic group Fq^*, hence every x with x^256 = 1 is an inverse power h^(-nu), nu < 256 (a statement about the constants q and g only; g^(2^47) = 1 != g^(2^46) is proved by compute)"
@@ -91,9 +92,9 @@ PROPS["C10"]["units"] = list(PROPS["C10"]["units"]) + ["fieldx_fq", "fieldx_fr",
 
 PROPS["C16"] = dict(units=["bls_consts", "consts", "ops_fp", "wrap64_fp", "fieldx_fp"],
     assumptions=[A_ARK1, "parametricity: two instantiations of the same generic arkworks Bls12<Config> code with equal configuration constants over fields with equal arithmetic and serialisation (C10, C11 for Fp) are the same mathematical object, so pairing values, serialisation and scalar multiplication agree and bilinearity / non-degeneracy are those of the reference", M_PRIME],
-    explanation="bls12_377.rs contains no algorithms, only configuration constants: every literal (Fp2/Fp6/Fp12 non-residues, all 6+6+12 Frobenius coefficients, G1/G2 generators, COEFF_B, cofactors and their inverses, x, twist type) is shown by compute to equal the value defined by the modulus (gamma^k with gamma = (-5)^((p-1)/6), delta^k, generators on curve, [r]G1 = O, cofactor*inverse = 1 mod r, p and r as polynomials in x) AND the corresponding constant parsed from the reference crate's source",
+    explanation="bls12_377.rs contains no algorithms, only configuration constants: every literal (Fp2/Fp6/Fp12 non-residues, all 6+6+12 Frobenius coefficients, G1/G2 generators, COEFF_B, cofactors and their inverses, x, twist type) is shown by compute to equal the value defined by the modulus (gamma^k with gamma = (-5)^((p-1)/6), delta^k, generators on curve, [r]G1 = O and [r]G2 = O (Jacobian ladders over Fp and Fp2 evaluated by compute), cofactor*inverse = 1 mod r, p and r as polynomials in x) AND the corresponding constant parsed from the reference crate's source",
     technique="contract-based deductive verification: generated ground lemmas over the configuration literals extracted from /repo, discharged by Verus by(compute_only); engine equivalence itself is assumed (parametricity) with a bounded differential stand-in in the thorough tier",
-    not_decided=["the pairing computation itself (generic arkworks code, A-ARK) -- bounded differential probe `bls` in the thorough tier", "[r]G2 = O"])
+    not_decided=["the pairing computation itself (generic arkworks code, A-ARK) -- bounded differential probe `bls` in the thorough tier"])
 # C16's parametricity argument rests on Fp's arithmetic and serialisation being those of the reference field: every Fp
 # obligation of C10/C11 is therefore also an obligation of C16 (the file src/fields/fp/* is the engine's base field)
 PROPS["C16"]["tag_alias"] = {u: ["C10", "C11"] for u in ("ops_fp", "wrap64_fp", "fieldx_fp")}
@@ -107,6 +108,7 @@ for _p in ("C10", "C11", "C12"):
     PROPS[_p]["assumptions"] = list(PROPS[_p]["assumptions"]) + [A_FIAT]
     PROPS[_p]["engines"] = [_kani.engine()]
     PROPS[_p]["checker_extra"] = "cargo kani --harness proofs_<f>::h_<f>_<fn> in build/kani_fiat (verbatim fiat.rs via #[path])"
+PROPS["C10"]["not_decided"] = list(PROPS["C10"].get("not_decided", [])) + ["the 32-bit backend's `inverse` (Bernstein-Yang divstep loop over fiat's f*_divstep, (49 B + 57) / 17 iterations, final sign fix and precomputed factor): not under contract, bounded probe field.* on the minimal build (watched files); the 64-bit backend's inverse is arkworks' (A-ARK-1)"]
 
 from vx import kani_lazy as _kani_lazy
 PROPS["C13"]["engines"] = [_kani_lazy.engine()]
@@ -120,6 +122,8 @@ for _p, _s in PROPS.items():
         _s.setdefault("tag_alias", {})["ark_invsqrt"] = ["C09"]
 # C12 (the two builds compute the same thing) is broken by a defect in either build: every obligation of its units counts
 PROPS["C12"]["units"] = list(PROPS["C12"]["units"]) + [u for u in ("fieldx_fq", "fieldx_fr", "fieldx_fp", "ops_fq", "ops_fr", "ops_fp") if u not in PROPS["C12"]["units"]]
+# the generic MSM of arkworks reaches the crate through the additive operator forms (C04 obligations of ark_ops): they carry C05 too
+PROPS["C05"].setdefault("tag_alias", {})["ark_ops"] = ["C04"]
 PROPS["C12"].setdefault("tag_alias", {}).update({u: ["*"] for u in PROPS["C12"]["units"]})
 # C17: the constants of the 32-bit backend are built through from_montgomery_limbs (tagged C17 in the wrapper units)
 PROPS["C17"]["units"] = list(PROPS["C17"]["units"]) + [f"wrap{b}_{f}" for b in ("64", "32") for f in ("fq", "fr", "fp")]
